@@ -261,12 +261,17 @@ pub fn c10(rng: &mut Rng, thorough: bool, idx: u64) -> Spec {
     let mut cfg = single_pool(if session { "session" } else { "transaction" }, pool_size, replicas);
     cfg.set("connect_timeout", 60000);
     cfg.pools[0].lb = rng.pick(&["random", "loc"]).to_string();
+    // half of the runs: clients idle inside a transaction lose their server after this long
+    // (in session mode too), while staying connected
+    let idle_timeout: u64 = if rng.chance(0.5) { rng.range(80, 300) } else { 0 };
+    cfg.set("idle_client_in_transaction_timeout", idle_timeout);
     let nrun = rng.range(2, if thorough { 5 } else { 4 }) as u32;
     let mut clients = Vec::new();
     // (client, step idx of a sleeping statement, sleep ms), (client, step idx of the last step of a txn), leavers
     let mut sleeps: Vec<(u32, usize, u64)> = Vec::new();
     let mut txn_ends: Vec<(u32, usize)> = Vec::new();
     let mut leavers: Vec<u32> = Vec::new();
+    let mut idle_losers: Vec<(u32, usize)> = Vec::new();
     for id in 1..=nrun {
         let mut p = Prog::new(id);
         let nblocks = rng.range(1, if thorough { 5 } else { 3 });
@@ -277,6 +282,22 @@ pub fn c10(rng: &mut Rng, thorough: bool, idx: u64) -> Spec {
             }
             p.new_txn();
             let last = b + 1 == nblocks;
+            if idle_timeout > 0 && rng.chance(0.35) {
+                // sits idle inside a transaction until the pooler takes the server away
+                p.simple("BEGIN".into());
+                let s = p.select(1, 0, "");
+                p.simple(s);
+                p.steps.push(Step::Hold { until: None, max_ms: idle_timeout + rng.range(150, 700) });
+                txn_ends.push((id, p.steps.len() - 1));
+                idle_losers.push((id, p.steps.len() - 1));
+                if rng.chance(0.5) {
+                    // the transaction is gone: this is answered by whatever server comes next
+                    p.new_txn();
+                    let s = p.select(1, 0, "");
+                    p.simple(s);
+                }
+                continue;
+            }
             if last && leaves_in_txn {
                 p.simple("BEGIN".into());
                 let s = p.select(1, 0, "");
@@ -374,6 +395,11 @@ pub fn c10(rng: &mut Rng, thorough: bool, idx: u64) -> Spec {
                     let d = if rng.chance(0.4) { rng.range(0, 3) } else { rng.range(150, 600) };
                     (Some(format!("c{}.s{}.done", c, s)), d, c, "target")
                 }
+                // while the target sits connected but has lost its server to the idle timeout
+                7 if !idle_losers.is_empty() => {
+                    let (c, sidx) = *rng.pick(&idle_losers);
+                    (Some(format!("c{}.s{}.done", c, sidx)), rng.range(100, 500), c, "target")
+                }
                 // after the target left (inside a transaction, if there is such a client)
                 7 | 8 => {
                     let c = if !leavers.is_empty() { *rng.pick(&leavers) } else { rng.range(1, nrun as u64) as u32 };
@@ -400,7 +426,8 @@ pub fn c10(rng: &mut Rng, thorough: bool, idx: u64) -> Spec {
         }
     }
     spec.params = params_from(&cfg);
-    spec.family = format!("cancel/{}/pool{}/rep{}", if session { "session" } else { "transaction" }, pool_size, replicas);
+    spec.params.insert("idle_timeout_ms".into(), serde_json::json!(idle_timeout));
+    spec.family = format!("cancel/{}/pool{}/rep{}{}", if session { "session" } else { "transaction" }, pool_size, replicas, if idle_timeout > 0 { "/idle_timeout" } else { "" });
     spec.oracles = vec!["c10_cancel".into(), "liveness".into(), "no_panic".into()];
     spec
 }
